@@ -129,6 +129,7 @@ func (r *Runner) Run() int {
 		pool.CrossKinds = []string{"z3-new", "cvc5"}
 	}
 	r.Prog.CrossEvery = 40
+	pool.Profile = os.Getenv("VERIF_PROFILE") != ""
 	results := pool.Run(specs)
 
 	known := loadKnown(r.Verif)
@@ -205,6 +206,22 @@ func (r *Runner) Run() int {
 		for _, s := range res.Samples {
 			if len(samples) < 8 {
 				samples = append(samples, map[string]interface{}{"harness": res.Spec.Name, "path": s, "verdict": "all assertions unsat-to-violate / no escaping panic"})
+			}
+		}
+		if res.ForkSites != nil {
+			type kv struct {
+				k string
+				n int
+			}
+			var kvs []kv
+			for k, n := range res.ForkSites {
+				kvs = append(kvs, kv{k, n})
+			}
+			sort.Slice(kvs, func(i, j int) bool { return kvs[i].n > kvs[j].n })
+			for i, e := range kvs {
+				if i < 25 {
+					fmt.Printf("  forks %8d  %s\n", e.n, e.k)
+				}
 			}
 		}
 		// violations: group by signature
